@@ -2093,6 +2093,14 @@ class Engine(object):
             if len(r) != 1 or isinstance(r[0][1], Raised):
                 raise EngineError("attribute assignment through a forking expression")
             base = r[0][1]
+            if isinstance(base, ExcV) and isinstance(target.value, ast.Name):
+                # `exc.chip = chip` in a handler: a NEW exception value carrying the attribute replaces the one bound to the
+                # name and the one a bare `raise` re-raises (exception values are never shared between paths mutably)
+                new_exc = ExcV(base.cls, base.args, dict(base.attrs, **{target.attr: value}))
+                st2 = st.set(target.value.id, new_exc)
+                if st2.env.get("__current_exc__") is base:
+                    st2 = st2.set("__current_exc__", new_exc)
+                return st2
             if not isinstance(base, ObjV):
                 raise EngineError("attribute assignment on %r" % type(base).__name__)
             return self.assign(target.value, base.with_field(self.mangle(target.attr), value), r[0][0], node)
@@ -2626,6 +2634,10 @@ class Engine(object):
                 names.append(t.id)
             elif isinstance(t, ast.Attribute):
                 names.append(t.attr)
+        # aliases of OSError in the standard library (socket.error, select.error, IOError, EnvironmentError are OSError)
+        names = ["OSError" if (n in ("IOError", "EnvironmentError") or (n == "error" and isinstance(t_, ast.Attribute)
+                                and isinstance(t_.value, ast.Name) and t_.value.id in ("socket", "select", "os")))
+                 else n for n, t_ in zip(names, [t for t in tn if isinstance(t, (ast.Name, ast.Attribute))])]
         if exc.cls in names:
             return True
         # exception hierarchy of builtins and repository classes
